@@ -34,7 +34,7 @@ TIERS = {
     "quick": dict(mc=[(("a", "b"), 3)], gen=[(("a", "b"), 3, None)], run_every=12, builds="31",
                   ill=300, real_renames=2, real_runs=4, gen_programs=12, chunk=7000),
     "thorough": dict(mc=[(("a", "b"), 3), (("a", "b", "c"), 3), (("a", "b"), 4)],
-                     gen=[(("a", "b", "c"), 3, None), (("a", "b"), 4, 110000)], run_every=6, builds="0,31",
+                     gen=[(("a", "b", "c"), 3, None), (("a", "b"), 4, 60000)], run_every=8, builds="0,31",
                      ill=3000, real_renames=12, real_runs=24, gen_programs=150, chunk=8000),
 }
 
